@@ -296,3 +296,29 @@ Definition feed_eof (r : reader) : list out :=
 Definition lib_items (chunks : list bytes) (eof : bool) : list out :=
   let '(os, r) := feed_all reader0 chunks in
   if eof then os ++ feed_eof r else os.
+
+(** * Auxiliary definitions used by the theorems (not executed by the harness) *)
+(** decoder states the code can be in: [waiting] is determined by the state except in [SFrame] *)
+Definition wfd (d : dec) : Prop :=
+  match st d with
+  | SGreeting => waiting d = Gen.greeting_len
+  | SHeader => waiting d = 1
+  | SLen f => waiting d = if f_long f then Gen.dec_len_long else Gen.dec_len_short
+  | SFrame _ => True
+  end.
+
+(** termination measure of one [decode] call *)
+Definition mu (d : dec) (buf : bytes) : nat :=
+  match st d with
+  | SGreeting => 0
+  | SHeader => 3 * length buf + 1
+  | SFrame _ => 3 * length buf + 2
+  | SLen _ => 3 * length buf + 3
+  end.
+
+(** bytes the reader holds on behalf of the connection: undecoded buffer + frames of a partial message *)
+Definition held (r : reader) : N :=
+  lenN (rd_buf r) +
+  match buffered (rd_dec r) with Some fs => fold_right (fun f a => lenN f + a) 0 fs | None => 0 end.
+
+Definition lib_reader (chunks : list bytes) : reader := snd (feed_all reader0 chunks).
